@@ -1,6 +1,6 @@
 (* C02 - Every delivery ends in exactly one, correct disposition.
    Statements only; every proof is `exact <lemma>`. *)
-From Repid Require Import Base Sched Handle HandleProofs Ladder LadderProofs.
+From Repid Require Import Base Sched Handle HandleProofs Ladder LadderProofs GenSched GenLadder GenLadderProofs.
 
 (* exactly one terminal action for every actor behaviour (any API call sequence, any ending, callbacks and result store failing or not); only a raising broker call is excluded *)
 Theorem C02_process_one_terminal : forall pol now sf p rbb calls fin,
@@ -26,7 +26,13 @@ Theorem C02_disposition_table : forall pol p success now,
   (decide pol p success now = DNack <-> (success = false /\ max <= tried /\ is_recurring p = false)).
 Proof. exact disposition_table. Qed.
 
+(* the ladder `decide` the theorems above are about IS the branch structure of repid/_processor.py report_to_broker at /repo's
+   current source: GenLadder.gen_decide is regenerated from it on every run (harness/translate.py) and proved equal *)
+Theorem C02_source_is_model_ladder : forall pol p success now, gen_decide pol p success now = decide pol p success now.
+Proof. exact gen_decide_eq. Qed.
+
 Print Assumptions C02_process_one_terminal.
 Print Assumptions C02_eager_nothing_more.
 Print Assumptions C02_plain_actor_trace.
 Print Assumptions C02_disposition_table.
+Print Assumptions C02_source_is_model_ladder.
